@@ -46,6 +46,8 @@ type schedCase struct {
 	Hooks string     `json:"hooks"`
 	Users []seedUser `json:"users"`
 	Steps []step     `json:"steps"`
+	// Policy: a zxcvbn password policy (C10 only: the stored passwords of the schedule's users do not meet it, so hash upgrades are refused)
+	Policy string `json:"policy,omitempty"`
 }
 
 type opResult struct {
@@ -357,7 +359,11 @@ func runSchedule(c schedCase, probes []opSpec) (out schedOutcome) {
 	defaultTransportMu.Lock()
 	http.DefaultTransport = stubRT{mode: c.Mode, stall: make(chan struct{})}
 	defaultTransportMu.Unlock()
-	e, err := newAgentEnv(schedConfig(), c.Users, upgradesArg(c.Mode), "", "", c.Hooks)
+	ptype := ""
+	if c.Policy != "" {
+		ptype = "zxcvbn"
+	}
+	e, err := newAgentEnv(schedConfig(), c.Users, upgradesArg(c.Mode), ptype, c.Policy, c.Hooks)
 	if err != nil {
 		out.Infra = "VERIF-INFRA " + err.Error()
 		return
